@@ -523,10 +523,10 @@ def run(tier):
             'grandchildren holding the pipes (kernel behaviour)',
             'the wall-time bound as a number',
         ])
-    rule_r1_r2_r3(chk, prog)
-    rule_nullness(chk, prog)
-    rule_r4(chk, prog)
-    rule_r5(chk, prog)
+    chk.guard(rule_r1_r2_r3, chk, prog)
+    chk.guard(rule_nullness, chk, prog)
+    chk.guard(rule_r4, chk, prog)
+    chk.guard(rule_r5, chk, prog)
     extra = None
     if tier == 'thorough':
         from .. import selftest
